@@ -27,9 +27,10 @@ ASSUMPTIONS = [
     "Python zoneinfo (system tzdata) is the reference for local time; the clock shim only affects CLOCK_REALTIME of the child",
 ]
 
-TZS = ["UTC", "America/New_York", "Asia/Kolkata"]
+TZS = ["UTC", "America/New_York", "Asia/Kolkata", "America/Havana"]   # Havana: the clock falls back from 01:00 to 00:00 (midnight occurs twice)
 DAYS = [(2020, 1, 15), (2020, 2, 29), (2021, 2, 28), (2020, 12, 31), (2021, 1, 1), (2020, 4, 30), (2020, 3, 8), (2020, 11, 1),
-        (2019, 7, 4), (2024, 2, 29), (2023, 3, 12), (2023, 11, 5), (2022, 5, 31), (1999, 12, 31), (2030, 6, 9)]
+        (2019, 7, 4), (2024, 2, 29), (2023, 3, 12), (2023, 11, 5), (2022, 5, 31), (1999, 12, 31), (2030, 6, 9),
+        (2022, 11, 6), (2018, 11, 4), (2022, 3, 13)]   # Havana: ambiguous midnight twice, a spring-forward day
 OPS = ["=", "!=", "<", "<=", ">", ">=", "===", "!=="]
 OP_SPELL = {"=": ["=", "==", "eq"], "!=": ["!=", "<>", "ne"], "<": ["<", "lt"], "<=": ["<=", "lte", "le"],
             ">": [">", "gt"], ">=": [">=", "gte", "ge"], "===": ["==="], "!==": ["!=="]}
@@ -44,7 +45,8 @@ def strategy_(draw, tier):
     tz = draw(st.sampled_from(TZS if tier == "thorough" else TZS))
     if draw(st.sampled_from(range(4))) == 0:
         y, m, d = draw(st.sampled_from(DAYS))
-        return {"tz": tz, "rel": draw(st.sampled_from(["today", "yesterday", "-1", "-7", "'+1'", "'-1'", "-30", "'+7'"])),
+        return {"tz": tz, "rel": draw(st.sampled_from(["today", "yesterday", "-1", "-7", "'+1'", "'-1'", "-30", "'+7'", "-365", "-999", "-1000",
+                                                        "-1001", "'-3000'", "-10000", "'+1000'", "'+4000'"])),
                 "clock_day": [y, m, d], "clock_hms": draw(st.sampled_from([[12, 0, 0], [0, 0, 0], [23, 59, 59], [3, 30, 0]])),
                 "split": draw(st.booleans())}
     y, m, d = draw(st.sampled_from(DAYS))
